@@ -19,6 +19,9 @@ func init() { register("C15", checkC15) }
 //	                (exclusively for writes)
 //	confined:a,b,c  every access is in one of the listed functions (fnKey
 //	                suffixes) or on a fresh allocation
+//	writers:a,b     every write is in one of the listed functions, none of which
+//	                is reachable from request / API / notification roots (i.e.
+//	                they run while the object is being built); reads are free
 //
 // Fields not listed are inferred: atomic / mutex / channel typed fields are
 // synchronisation objects themselves; a field never written outside the
@@ -33,7 +36,7 @@ var guardTable = map[string]string{
 	"reservoir/cache.cacheJanitor.interval":       "confined:(*reservoir/cache.cacheJanitor).start,(*reservoir/cache.cacheJanitor).start$1",                // set before the goroutine starts, afterwards only its loop touches it
 	"reservoir/cache.cacheJanitor.running":        "confined:(*reservoir/cache.cacheJanitor).start,(*reservoir/cache.cacheJanitor).stop",                   // lifecycle flag, owner-serial (constructor / Destroy)
 	"reservoir/config.ConfigSubscriber.unsubs":    "confined:(*reservoir/config.ConfigSubscriber).Add,(*reservoir/config.ConfigSubscriber).UnsubscribeAll", // owner-confined: Add in constructors, UnsubscribeAll in Destroy/stop
-	"reservoir/config.ConfigProp.requiresRestart": "confined:(*reservoir/config.ConfigProp).SetRequiresRestart,(*reservoir/config.ConfigProp).Stage",       // written while the Config is being built (NewDefault/load), read-only afterwards
+	"reservoir/config.ConfigProp.requiresRestart": "writers:(*reservoir/config.ConfigProp).SetRequiresRestart",                                             // written only while the Config is being built (NewDefault/load), read-only afterwards
 	"reservoir/utils/event.Event.subscribers":     "guard:F:reservoir/utils/event.Event.mu",
 	"reservoir/utils/event.Event.nextID":          "guard:F:reservoir/utils/event.Event.mu",
 }
@@ -360,6 +363,47 @@ func checkC15(c *Ctx, r *Report) {
 				} else {
 					r.Ok("C15.R1", key, pos[kk], fmt.Sprintf("%d access(es), %s in must-hold set on every call path", cnt[kk], guard))
 				}
+			}
+		case strings.HasPrefix(rule, "writers:"):
+			allowed := strings.Split(strings.TrimPrefix(rule, "writers:"), ",")
+			var bad []string
+			nW := 0
+			for _, a := range as {
+				if a.fresh || !a.write {
+					continue
+				}
+				nW++
+				ok := false
+				for _, al := range allowed {
+					if fnKey(a.fn) == al {
+						ok = true
+					}
+				}
+				if !ok {
+					bad = append(bad, fmt.Sprintf("%s in %s at %s", a.what, fnKey(a.fn), c.InstrPos(a.in)))
+				}
+			}
+			// the writer functions must not run concurrently with readers
+			var roots []*ssa.Function
+			for _, k := range []string{"reservoir/config.UpdatePartialFromConfig", "(*reservoir/proxy.Proxy).ServeHTTP", "reservoir/webserver/api.WrapHandler$1"} {
+				for _, f := range li.Fns {
+					if fnKey(f) == k {
+						roots = append(roots, f)
+					}
+				}
+			}
+			reach, _ := allReach(li, roots)
+			for f := range reach {
+				for _, al := range allowed {
+					if fnKey(f) == al {
+						bad = append(bad, "writer "+al+" is reachable from request/API handling")
+					}
+				}
+			}
+			if len(bad) > 0 {
+				r.Fail("C15.R4", fk, "-", "construction-time field written after publication: "+strings.Join(uniq(bad), "; "))
+			} else {
+				r.Ok("C15.R4", fk, "-", fmt.Sprintf("%d writes, all inside %v, which is unreachable from request/API/notification roots", nW, allowed))
 			}
 		case strings.HasPrefix(rule, "confined:"):
 			allowed := strings.Split(strings.TrimPrefix(rule, "confined:"), ",")
